@@ -3,7 +3,8 @@ package store
 import "github.com/hashicorp/raft"
 
 // Native replay only: route the *raft.Raft API methods to the harness's raft membership model
-// through the hook set of the patched api.go (raft_api.go.txt, spec "native_module_patch").
+// through the hook set of the patched api.go (raft_api.go.txt, spec "native_module_patch"), and
+// give the model access to the real nextConfiguration / checkConfiguration for cross-checking.
 func init() {
 	verifC32HooksInstall = func() {
 		raft.VerifHooks = &raft.VerifHookSet{
@@ -19,4 +20,18 @@ func init() {
 		}
 	}
 	verifC32HooksRemove = func() { raft.VerifHooks = nil }
+
+	verifC32RealNext = func(cur []raft.Server, kind int, id raft.ServerID, addr raft.ServerAddress) ([]raft.Server, error) {
+		cmd := map[int]raft.ConfigurationChangeCommand{
+			vC32AddVoter:    raft.AddVoter,
+			vC32AddNonvoter: raft.AddNonvoter,
+			vC32Remove:      raft.RemoveServer,
+			vC32Demote:      raft.DemoteVoter,
+		}[kind]
+		next, err := raft.VerifNextConfiguration(raft.Configuration{Servers: verifC32Clone(cur)}, cmd, id, addr)
+		return next.Servers, err
+	}
+	verifC32RealCheck = func(servers []raft.Server) error {
+		return raft.VerifCheckConfiguration(raft.Configuration{Servers: servers})
+	}
 }
